@@ -1679,6 +1679,13 @@ pub fn from_reader_with_options<'a, R: std::io::Read + 'a, T: DeserializeOwned>(
     let cfg = crate::de::Cfg::from_options(&options);
     let crop_radius = options.crop_radius;
 
+    // Decode to UTF-8 (BOM sniffing) before the ring sees the bytes: snippets are cut from the
+    // ring, and locations refer to the decoded text. The decoder inside `LiveEvents::from_reader`
+    // then passes the already decoded stream through unchanged.
+    let reader = encoding_rs_io::DecodeReaderBytesBuilder::new()
+        .encoding(None)
+        .build(reader);
+
     // Wrap the reader in a SharedRingReader to capture context for error snippets
     let shared_ring = ring_reader::SharedRingReader::new(reader);
     let ring_handle = ring_reader::SharedRingReaderHandle::new(&shared_ring);
